@@ -108,8 +108,8 @@ template <class A> static std::vector<std::string> transcript(const std::vector<
         rec += " | rc=" + std::to_string(r.rc) + (r.produced >= 0 ? " " + obj_record(r.produced) : "");
         break;
       }
-      case 'R': case 'B': case 'N': case 'O': {
-        (*groups)[op.kind == 'R' ? "resolve" : op.kind == 'B' ? "create_reference" : op.kind == 'N' ? "normalize" : "make_owner"]++;
+      case 'R': case 'B': case 'N': case 'O': case 'W': case 'D': {
+        (*groups)[op.kind == 'R' ? "resolve" : op.kind == 'B' ? "create_reference" : op.kind == 'N' ? "normalize" : op.kind == 'W' ? "parse" : op.kind == 'D' ? "free" : "make_owner"]++;
         typename World<A>::Res r = w.exec(op);
         rec += r.skipped ? "skipped" : "rc=" + std::to_string(r.rc) + (r.produced >= 0 ? " " + obj_record(r.produced) : "");
         if (r.produced >= 0) (*groups)["recompose"]++;
